@@ -725,7 +725,7 @@ func TestVerifC17Diff(t *testing.T) {
 	}
 	defer admin.Close()
 
-	n := r.N(200, 4000)
+	n := r.N(200, 3000)
 	var wg sync.WaitGroup
 	for w := 0; w < c17Workers; w++ {
 		wg.Add(1)
